@@ -20,7 +20,23 @@ class _FixedDatetime(_dt.datetime):
         return FIXED.replace(tzinfo=None)
 
 
+def _install_xlsxwriter():
+    """XlsxWriter stamps the workbook it writes with datetime.now() (docProps/core.xml): with a live clock the
+    same chart data gives a different embedded workbook every second, which splits canonical states."""
+    n = 0
+    for modname in ("xlsxwriter.workbook", "xlsxwriter.core"):
+        try:
+            m = __import__(modname, fromlist=["x"])
+        except Exception:
+            continue
+        if hasattr(m, "datetime"):
+            m.datetime = _FixedDatetime
+            n += 1
+    return n
+
+
 def install():
+    _install_xlsxwriter()
     try:
         import pptx.parts.coreprops as m
     except Exception:
